@@ -258,7 +258,13 @@ def main(argv):
             "rule": "evaluations = every verifier obligation attempted (Verus function/lemma, Kani harness; each covers all inputs) + every choice vector the native small-scope enumeration generated, including those rejected by a harness assumption. distinct_nontrivial = discharged verifier obligations + native choice vectors that satisfied the harness assumptions and ran the real code to completion (choice vectors are distinct by construction: mixed-radix counter over the draw domains); obligations that failed, are undecided or are known findings are not counted",
             "programs": cfg.get("programs", None),
         },
-        "assumptions": sorted(assumptions),
+        "assumptions": sorted(set(assumptions) | {
+            "general: obligations listed under bounded_obligations (native small-scope enumeration, bounded Kani harnesses) are stand-ins with a stated bound, not proofs",
+            "general: definitions accepted by the derive macros are covered for the generated family only (bounded over definitions); the macro generators themselves are not verified",
+            "general: machine integers are machine integers in both verifiers (overflow is an obligation, nothing is abstracted to mathematical integers in executable code)",
+            "general: unsafe code is executed bit-precisely by Kani inside its harnesses only; it is never extracted into a Verus unit",
+            "general: termination is proved only for the Verus-extracted functions (decreases clauses); Kani proves no termination",
+        }),
         "wall_s": round(time.time() - t0, 2),
         "violations": len(violations),
     }
